@@ -64,3 +64,47 @@ package ccontainer
 //@ closure (*CContainer).WaitValueWithValidator$1
 //@   ghost exit: seen(val) := true
 //@   assert exit: val == c.val && wake != nil && wake == c.bcast.ch
+//
+// The three wrappers instantiate the validator with a pure closure; its contract describes the condition.
+//
+//@ func (*CContainer).WaitValue$1
+//@   props C15
+//@   pure
+//@   opt frame = skip
+//@   opt pure-callbacks = equal
+//@   ensures result1 == nil
+//
+//@ func (*CContainer).WaitValue
+//@   props C15
+//@   opt frame = skip
+//@   requires ctx != nil
+//@   ensures held: result1 == nil ==> seen(result0)
+//@   ensures source: result1 != nil ==> cancelled(ctx) || recvs(errCh) > old(recvs(errCh))
+//
+//@ func (*CContainer).WaitValueChange$1
+//@   props C15
+//@   pure
+//@   opt frame = skip
+//@   opt pure-callbacks = equal
+//@   ensures result1 == nil
+//@   ensures differs: result0 ==> v != old
+//
+//@ func (*CContainer).WaitValueChange
+//@   props C15
+//@   opt frame = skip
+//@   requires ctx != nil
+//@   ensures held: result1 == nil ==> seen(result0) && result0 != old
+//@   ensures source: result1 != nil ==> cancelled(ctx) || recvs(errCh) > old(recvs(errCh))
+//
+//@ func (*CContainer).WaitValueEmpty$1
+//@   props C15
+//@   pure
+//@   opt frame = skip
+//@   opt pure-callbacks = equal
+//@   ensures result1 == nil
+//
+//@ func (*CContainer).WaitValueEmpty
+//@   props C15
+//@   opt frame = skip
+//@   requires ctx != nil
+//@   ensures source: result != nil ==> cancelled(ctx) || recvs(errCh) > old(recvs(errCh))
